@@ -413,6 +413,7 @@ def execute(doc):
 
 
 _ACCEPTED_SWEEP = None
+NUMBER_SWEEP = (0, 1, 2, 7, 8, 9, 15, 16, 17, 24, 31, 32, 33, 63, 64, 65, 100, 120, 127, 128, 129, 255, 256, 65535)
 
 
 def accepted_sweep_list():
@@ -459,12 +460,21 @@ def _exec_accsweep(doc, res):
     else:
         plan = [[start, length, name] for start, length in _value_spans(raw)
                 for name in sorted(wirefault.TEXT_FILLS) + ['zero', 'ones']]
+        # ... every number of a text input replaced by small numbers around the powers of two (prefix lengths, ages,
+        # percentages): still a plain valid-looking input, so the round trip must serialise identically
+        if wirefault.is_text(raw):
+            import re
+            for match in list(re.finditer(rb'(?<![0-9A-Za-z.:])\d{1,5}(?![0-9A-Za-z.:])', raw))[:12]:
+                plan += [[match.start(), match.end() - match.start(), 'n%d' % number] for number in NUMBER_SWEEP]
         # ... and every single octet overwritten (all five values for small inputs, two for large ones)
         values = ('b00', 'b01', 'b7f', 'b80', 'bff') if len(raw) <= 600 else ('b01', 'bff')
         plan += [[offset, 1, name] for offset in range(len(raw)) for name in values]
     accepted = 0
     for start, length, name in plan:
-        if name.startswith('b') and len(name) == 3:
+        strict = False
+        if name.startswith('n') and name[1:].isdigit():
+            fill, strict = name[1:].encode(), True
+        elif name.startswith('b') and len(name) == 3:
             fill = bytes((int(name[1:], 16), ))
         else:
             fill = wirefault.TEXT_FILLS[name](length) if name in wirefault.TEXT_FILLS else (b'\x00' if name == 'zero' else b'\xff') * length
@@ -479,7 +489,21 @@ def _exec_accsweep(doc, res):
             continue
         accepted += 1
         before = len(res.violations)
-        _wellformed(res, type(obj).__name__, serialise(obj))
+        out = serialise(obj)
+        if _wellformed(res, type(obj).__name__, out):
+            # ... and identically to its parse-compose round trip
+            try:
+                twin = type(obj).parse_exact_size(bytes(obj.compose()))
+            except Exception:  # not composable standalone / not accepted back  # pylint: disable=broad-except
+                twin = None
+            if twin is not None and type(twin) is type(obj) and (strict or canon(twin) == canon(obj)):
+                res.stats['probe.round_trip_twin_serialised'] += 1
+                twin_out = serialise(twin)
+                if twin_out != out:
+                    which = 'json' if twin_out.get('json') != out.get('json') else 'markdown'
+                    res.violation((PROPERTY, 'equal-objects-differ', type(obj).__name__, which),
+                                  'an object and its parse-compose round trip produce identical output',
+                                  _diff_text(out, twin_out))
         for violation in res.violations[before:]:
             violation['case'] = [start, length, name]
         if len(res.violations) > 3:
@@ -545,8 +569,15 @@ def _exec_history(doc, res):  # pylint: disable=too-many-branches,too-many-state
                 twin = type(obj).parse_exact_size(composed)
             except Exception:  # not composable standalone / variant classes  # pylint: disable=broad-except
                 twin = None
-            if twin is not None and type(twin) is type(obj) and canon(twin) == canon(obj):
+            # "equal objects - in particular an object and its parse-compose round trip - produce identical
+            # output": for subjects from valid inputs the round trip is compared whether or not the library (or
+            # canon) calls the two equal; for subjects parsed from mutated inputs (where the pinned tree's round
+            # trip is not the identity: URL fragments, stray quotes) only when they are equal
+            strict = specs[idx][0] in ('corpus', 'factory')
+            if twin is not None and type(twin) is type(obj) and (strict or canon(twin) == canon(obj)):
                 res.stats['probe.round_trip_twin_serialised'] += 1
+                if canon(twin) != canon(obj):
+                    res.stats['probe.round_trip_twin_not_canon_equal'] += 1
                 twin_out = serialise(twin)
                 if twin_out != out:
                     which = 'json' if twin_out.get('json') != out.get('json') else 'markdown'
